@@ -38,7 +38,9 @@ SOUP = ['1', '2', '0.5', '007', '1E+2', '"a"', '"x""y"', 'TRUE', '#N/A', '#REF!'
         'ANCHORARRAY(A1)', 'ANCHORARRAY(A1:B2)', '_xlfn.ANCHORARRAY(A:A)', 'ANCHORARRAY(name)',
         'INDIRECT("A1")', 'INDIRECT("A1:B2")', 'INDIRECT("x y")', '_xlfn.SINGLE(A1:B2)',
         "'a-b'!A1", "'2020'!A1", "'it''s'!A1", 'XFD1048576', '$XFD$1048576', 'A1:XFD1048576', 'FALſE', 'tRUE',
-        'LOG10(', 'A1(', 'LOG10', 'ſ', 'K']
+        'LOG10(', 'A1(', 'LOG10', 'ſ', 'K',
+        # error literals with the wrong closing mark / case / prefix
+        '#NAME!', '#REF?', '#NUM?', '#NULL?', '#value?', '#DIV/0?', '#N/A!', '#N/A?', 'Sheet1!#REF?', '#NAME', '#ref']
 PRINTABLE = [chr(c) for c in range(32, 127)] + ['é', 'ß', '€', '中', ' ']
 
 
